@@ -46,6 +46,8 @@ structure Probes where
   cSend : Bool := true
   cSendSeen : Nat := 0
   cFlush : ClientHandler.IoRes := .pending
+  cReadySeen : Bool := false
+  cFlushSeen : Bool := false
   server : List ServerSink.Ans := []
   sends : List (Bool × Nat × Nat) := []     -- server start_send: ok, blocks, body size
   openCalls : List Nat := []                -- substreams whose current `poll_next` call has not returned yet
@@ -82,9 +84,9 @@ def parseProbes (s : String) (msg0 : Nat) : Probes × Nat := Id.run do
         if r == "fwd" then .fwd else if r == "empty" then .empty else if r == "fatal" then .fatal else .pending
       p := { noteProbe p v (r != "empty") with procs := p.procs ++ [(v, a)] }
     | ["ct", r] => p := { p with timer := some (r == "fired") }
-    | ["cr", r] => p := { p with cReady := ioRes r }
+    | ["cr", r] => p := { p with cReady := ioRes r, cReadySeen := true }
     | ["cs", r] => p := { p with cSend := r == "ok", cSendSeen := p.cSendSeen + 1 }
-    | ["cf", r] => p := { p with cFlush := ioRes r }
+    | ["cf", r] => p := { p with cFlush := ioRes r, cFlushSeen := true }
     | _ => pure ()
   return (p, m)
 
@@ -171,8 +173,49 @@ def stepLine (v : V) (line : String) : V × Option String :=
       if p.timer.isSome && !v.h.client.timer then some "the handler consulted the start-sending timer, which the model has not armed"
       else if reached && v.h.client.timer && p.timer.isNone then some "the model has the start-sending timer armed, the handler did not consult it"
       else none
+    -- which answers of its sink the model's client half consults in this poll (non-interference: the result changes
+    -- with the answer) must be the answers the real handler asked for (`cr` = poll_ready, `cs` = start_send, `cf` = poll_flush)
+    let env0 := envOf p
+    let runWith (c : ClientHandler.Env) : CH × List Out := step v.h (.poll { env0 with client := c })
+    let differs (a b : ClientHandler.Env) : Bool :=
+      runWith a != runWith b
+    let c0 := env0.client
+    let flushAsked := differs { c0 with flush := .ok } { c0 with flush := .err } || differs { c0 with flush := .ok } { c0 with flush := .pending }
+    let readyAsked := differs { c0 with pollReady := .ok } { c0 with pollReady := .err } || differs { c0 with pollReady := .ok } { c0 with pollReady := .pending }
+    let sendAsked := readyAsked && c0.pollReady == .ok && differs { c0 with startSendOk := true } { c0 with startSendOk := false }
+    let sinkBad : Option String :=
+      if got == "incoming" then none
+      else if flushAsked != p.cFlushSeen then
+        some (if flushAsked then "the model's client half waits for its sink to be flushed in this poll, the handler did not call poll_flush"
+              else "the handler called poll_flush on the client half's sink where the model does not")
+      else if readyAsked != p.cReadySeen then
+        some (if readyAsked then "the model's client half asks its sink whether it is ready in this poll, the handler did not call poll_ready"
+              else "the handler called poll_ready on the client half's sink where the model does not")
+      else if sendAsked != (p.cSendSeen > 0) then
+        some (if sendAsked then "the model's client half starts a frame in this poll, the handler did not call start_send"
+              else "the handler called start_send on the client half's sink where the model does not")
+      else none
+    -- … and the same for the server half: every recorded answer of its sink (`sf` = poll_flush, with `ss` = start_send) is
+    -- consulted by the model (changing it changes the result), and the model asks for no further one
+    let srv := env0.server
+    let runS (l : List ServerSink.Ans) : CH × List Out := step v.h (.poll { env0 with server := l })
+    let baseS := runS srv
+    let flipA (a : ServerSink.Ans) : ServerSink.Ans := if a.flush == .err then { a with flush := .ok } else { a with flush := .err }
+    let unconsulted := (List.range srv.length).filter fun i => match srv[i]? with
+      | some a => runS (srv.set i (flipA a)) == baseS
+      | none => false
+    let wantsMore := runS (srv ++ [{ flush := .err }]) != baseS
+    let serverBad : Option String :=
+      if got == "incoming" then none
+      else if !unconsulted.isEmpty then
+        some s!"the handler polled the server half's sink {srv.length} time(s) in this poll; the model does not consult answer(s) {unconsulted}"
+      else if wantsMore then
+        some s!"the model's server half asks its sink for a further answer in this poll (after {srv.length}), the handler did not call poll_flush again"
+      else none
     if let some why := timerBad then (v', some why)
     else if let some why := consultBad then (v', some why)
+    else if let some why := sinkBad then (v', some why)
+    else if let some why := serverBad then (v', some why)
     else if !unasked.isEmpty then
       (v', some s!"inbound substream(s) {unasked} gave answers in this poll that the model's `poll_next` does not ask for (the real reader / processing future was polled where the model's is not)")
     else if got != res then
